@@ -155,3 +155,11 @@ Fixpoint vall (l : list verdict) : verdict :=
 
 Definition ver_hs (ver : Z) : N := if Z.eqb ver 1 then hs1 else hs2.
 Definition ver_max (ver : Z) : N := if Z.eqb ver 1 then max1 else max2.
+
+(* closed form of the two limits for a packet that is neither compressed nor encrypted
+   (proved equal to the model: C01/Proofs.v, limit_predict_v1 / limit_predict_v2); lets the
+   harness probe the 8 MiB boundary without moving 8 MiB frames through the case file *)
+Definition limit_predict (ver : Z) (nref bodylen : N) : option N :=
+  if Z.eqb ver 1 then (if max1 <? hs1 + bodylen then None else Some (hs1 + bodylen))
+  else if max_u8 <? nref then None
+  else let size := hs2 + nref * 4 + bodylen in if max2 <? size then None else Some size.
